@@ -16,6 +16,7 @@ use super::renderer::Renderer;
 use crate::diff::Diff;
 use crate::diff::DiffLine;
 use crate::formatln;
+use crate::lossy_string;
 use crate::newline::BytesNewline;
 use crate::outcome::Outcome;
 use crate::parsers::parser::ParserType;
@@ -230,16 +231,12 @@ impl UnifiedDiff {
                     if self.unexpected_start.is_none() {
                         self.unexpected_start = Some(expectation_index)
                     }
+                    // output is not guaranteed to be valid UTF-8: a line that cannot
+                    // be decoded must not fail the whole rendering
                     self.unexpected_lines.extend(
                         lines
                             .iter()
-                            .map(|(i, l)| {
-                                Ok((
-                                    *i,
-                                    String::from_utf8((l as &[u8]).trim_newlines().to_vec())?,
-                                ))
-                            })
-                            .collect::<Result<Vec<_>>>()?,
+                            .map(|(i, l)| (*i, lossy_string!((l as &[u8]).trim_newlines()))),
                     );
                     if self.unmatched_start.is_some() {
                         add_diff_hunk!();
